@@ -5,6 +5,12 @@ V = os.path.dirname(os.path.dirname(os.path.abspath(__file__)))
 props = [json.loads(l) for l in open(os.path.join(V, "properties.jsonl"))]
 
 CLAIMS = {
+ "C03": dict(
+  technique="Independent executable checker written in Lean (SpecCheck: own parser, the property's rule list) run on the byte-exact allocation model's image after every call (verdict transferred to the real file by equal length and hash) and directly on real snapshots incl. an 18 MB image with two DIFAT sectors; Lean proofs of the allocator facts behind single ownership and marking (a handed-out sector was FREE or new; FAT sectors are entered in the DIFAT and marked; invariant kept), tree rules from the directory model's invariant",
+  text="Proof: CfbVerif.Props.C03 — C03_handed_out_was_free, C03_extension_new, C03_fat_sector_marked; FatInv from C15 (C15_inv_create, freeChain_spec); sibling trees are search trees without red-red after every history (C01_reachable). "
+       "Tie: every call boundary of every generated history (both versions, sizes on all boundaries, handles, reopen, cycles, several FAT sectors) is judged by SpecCheck on the model image, which the lock-step shows identical to the real bytes; mismatching boundaries and sampled snapshots are judged on the real bytes; the large file exercises >109 FAT sectors and two DIFAT sectors.",
+  note="SpecCheck is run, not proved complete or sound; the theorems cover the allocator core, not the whole rule list. The mini stream's chain may be longer than needed (never shrinks): accepted. Trusted: Lean kernel + compiler for the executable checker, translator, hooks, harness.",
+  design="§3 C03"),
  "C15": dict(
   technique="Lean 4 invariant proofs about a byte-exact allocation model (free lists hold exactly free sectors, each once; an allocation with a non-empty free list reuses a freed sector and leaves the file length alone; freeing a chain returns every sector; same for mini sectors) + lock-step of API histories comparing the complete file image and allocator caches after every call + cycle oracle on the implementation's file length",
   text="Proof: CfbVerif.Props.C15 — FatInv holds in a fresh file (C15_inv_create) and is kept by allocation and release; C15_sector_reuse (no growth while the free list is non-empty, the sector handed out was FREE), C15_release (every sector of a freed chain lands on the free list), C15_mini_reuse (a really free mini sector is reused, neither mini stream nor file grows), C15_cycle_partial (release then allocate does not grow). "
